@@ -173,4 +173,55 @@ theorem Derivable.congr {cfg cfg' : Config} (ht : cfg'.tuples = cfg.tuples) (hr 
     obtain ⟨e, he, hrw⟩ := hrw
     exact .step ⟨e, by rw [hr]; exact he, hrw.congr ht hg⟩ ih
 
+/-! ### `_split_ref` and registries applied to a context -/
+
+theorem beforeColon_append (a b : List Char) (h : ':' ∉ a) : beforeColon (a ++ ':' :: b) = a := by
+  induction a with
+  | nil => simp [beforeColon]
+  | cons c cs ih =>
+    have hc : c ≠ ':' := fun e => h (by simp [e])
+    have hcs : ':' ∉ cs := fun e => h (List.mem_cons_of_mem _ e)
+    simp [beforeColon, hc, ih hcs]
+
+theorem afterColon_append (a b : List Char) (h : ':' ∉ a) : afterColon (a ++ ':' :: b) = b := by
+  induction a with
+  | nil => simp [afterColon]
+  | cons c cs ih =>
+    have hc : c ≠ ':' := fun e => h (by simp [e])
+    have hcs : ':' ∉ cs := fun e => h (List.mem_cons_of_mem _ e)
+    simp [afterColon, hc, ih hcs]
+
+/-- `_split_ref("type:id") = ("type", "id")` where `type` has no colon (the id may) -/
+theorem splitRef_typed (ty i : String) (h : ':' ∉ ty.toList) : splitRef (ty ++ ":" ++ i) = (ty, i) := by
+  have hl : (ty ++ ":" ++ i).toList = ty.toList ++ ':' :: i.toList := by
+    simp [String.toList_append]
+  unfold splitRef hasColon
+  rw [hl, beforeColon_append _ _ h, afterColon_append _ _ h]
+  simp
+
+/-- `_split_ref("id") = ("user", "id")` when there is no colon -/
+theorem splitRef_bare (s : String) (h : ':' ∉ s.toList) : splitRef s = ("user", s) := by
+  unfold splitRef hasColon
+  simp [h]
+
+theorem caveatSat_ofPreds {Ctx : Type} (preds : String → Option (Ctx → Option Bool)) (ctx : Ctx) (t : RelTuple) :
+    CaveatSat (Registry.ofPreds preds ctx) t ↔
+      t.caveat = none ∨ ∃ c p, t.caveat = some c ∧ preds c = some p ∧ p ctx = some true := by
+  unfold CaveatSat Registry.ofPreds
+  constructor
+  · rintro (h | ⟨c, hc, h⟩)
+    · exact .inl h
+    · right
+      cases hp : preds c with
+      | none => simp [hp] at h
+      | some p =>
+        refine ⟨c, p, hc, hp, ?_⟩
+        simp only [hp] at h
+        cases hpc : p ctx with
+        | none => simp [hpc] at h
+        | some b => simp [hpc] at h; rw [h]
+  · rintro (h | ⟨c, p, hc, hp, hpc⟩)
+    · exact .inl h
+    · exact .inr ⟨c, hc, by simp [hp, hpc]⟩
+
 end Rbacx.Rebac
